@@ -75,6 +75,9 @@ func c05GenThreadingSeq(r *verifh.Rng) []verifh.Section {
 		}
 		secs = append(secs, verifh.Section{Cfg: fmt.Sprintf("kind=runner mode=seq n=%d", n), Ops: ops})
 	}
+	// capacity 0: ScheduleImmediately is always busy, Wait returns at once, no slot is ever free (Schedule would block
+	// for ever and is left out)
+	secs = append(secs, verifh.Section{Cfg: "kind=runner mode=seq n=0", Ops: []string{"try", "probe", "wait", "try", "finish", "try", "probe", "wait"}})
 	// several TaskRunners alive at once, each checked against its own concurrency
 	for i := 0; i < verifh.Scale(8, 100); i++ {
 		k := r.Range(2, 3)
